@@ -806,6 +806,24 @@ def _check_kh(lines, text, host, addr, port, via, labels: Set[str]) -> bool:
                ' | '.join(str(sorted(w)) for w in want_flat), text),
             'kh-selection')
 
+    if not addr and parse_ip(host):
+        # a host given as an address literal, no separate peer address
+        # (connections through a tunnel or proxy command): the literal is
+        # the address, so naming it twice must not change what is selected
+        # - whichever reading of "[addr]:port against a CIDR pattern" the
+        # implementation takes, it takes it for both
+        labels.add('literal-host-no-addr' + (':port' if port else ''))
+        twice = _flat(_guarded(lambda t: kh_query(t, host, host, port, via),
+                               lines, render_kh_line, 'match_known_hosts'))
+
+        if twice != got_flat:
+            raise Violation(
+                'known-hosts-selection',
+                'query host=%r port=%r selects %s without a peer address '
+                'and %s with the same literal as peer address\n%s' %
+                (host, port, sorted(got_flat), sorted(twice), text),
+                'kh-literal-host-address')
+
     return bool(got_flat)
 
 
@@ -1949,7 +1967,8 @@ FAMILIES = [
                              'port-direct', 'port-fallback',
                              'marker:cert-authority', 'marker:revoked',
                              'cidr-host-bits:would-cover-query',
-                             'object-reused', 'separator-in-comment',
+                             'object-reused', 'literal-host-no-addr:port',
+                             'separator-in-comment',
                              'comment', 'blank'] + _DMG_KINDS}),
     Family('kh_keygen', run_kh_keygen, strategy=kh_keygen_strategy,
            budget={'quick': 320, 'thorough': 2000},
